@@ -27,8 +27,8 @@ def bounded(tier, seed):
 
 MANIFEST = dict(
     category="other",
-    text="Contract-based proof of the product linearisations and of the weight read-back on the real source; per-instance z3 proof over ALL solver outcomes of the captured MILP (SymMILP); bounded exact recomputation on the real API.",
+    text='Contract-based proofs on the real source: the flow-decomposition ENCODERS (DAG, cyclic, given weights: every admitted assignment explains every non-ignored edge exactly), the product linearisations, the weight read-back, the exact flow-conservation gate; per-instance z3 proof over ALL solver outcomes of the captured MILP (SymMILP); bounded exact recomputation on the real API.',
     design_ref="DESIGN.md section 3 / C02",
-    note="The encoder (rows = flow explanation) is decided per enumerated instance only. Trusted: HiGHS getLp(), z3.",
-    technique="contract-based deductive verification of building blocks (PyVC) + SymMILP (z3 over the captured MILP, all solver outcomes) + bounded runtime recomputation",
+    note='Encoder preconditions (edge variables 0/1 resp. integer in [0,w_max], recorded fixings) are stated, not proved. Trusted: HiGHS getLp(), z3.',
+    technique='contract-based deductive verification of encoders and building blocks (PyVC) + SymMILP (z3 over the captured MILP, all solver outcomes) + bounded runtime recomputation',
     engine="pyvc+symmilp+rc")
